@@ -10,4 +10,4 @@ for k in 1 2; do
   sed -i "s#/tmp/seed7/$p/repo#<scratch worktree>#g; s#/tmp/seed7/$p/out#<out>#g" $dst/meta.json
 done
 git -C /repo worktree remove --force /tmp/seed7/$p/repo 2>/dev/null
-ls /verif/seeded | grep "^$p-r6" | tr '\n' ' '
+ls /verif/seeded | grep "^$p-r7" | tr '\n' ' '
